@@ -3,6 +3,7 @@
 From Coq Require Import FMapPositive SetoidList Lia ZArith ZifyBool Permutation.
 From GV Require Import Lib.Trace Model.Registry.
 Open Scope Z_scope.
+Open Scope list_scope.
 
 Lemma zdec_zenc : forall z, zdec (zenc z) = z.
 Proof. destruct z; reflexivity. Qed.
@@ -47,7 +48,7 @@ Proof.
   intro Hin. apply Hx. apply in_map_iff in Hin. destruct Hin as [y [E Hy]].
   apply InA_alt. exists y. split; [|exact Hy].
   unfold PositiveMap.eq_key, PositiveMap.E.eq.
-  rewrite <- (zenc_zdec (fst x)), <- E, zenc_zdec. reflexivity.
+  apply (f_equal zenc) in E. rewrite !zenc_zdec in E. symmetry. exact E.
 Qed.
 
 Lemma zelems_nodup_pairs : forall A (m : zmap A), NoDup (zelems m).
